@@ -1,0 +1,41 @@
+//go:build verif
+
+package electra
+
+// Contracts for govc (see /verif/DESIGN.md). Comment-only: no declarations.
+
+// BEGIN C18 generated (tools/gen_c18.py in /verif)
+// cancelled: a context cancelled before the call makes it fail; surfaced: a cancellation observed by a poll
+// during the call makes it fail; polled: success after a poll means the context was not cancelled at entry.
+
+//@ func (state *BeaconStateView) ProcessEpoch(ctx, spec, epc) err
+//@   property C18
+//@   panics off
+//@   requires ctx != nil
+//@   opt weakcalls
+//@   opt inline=closures
+//@   assigns anything, ghost(ctx_t), ghost(ctx_seen)
+//@   ensures cancelled: ctx_cancelled(ctx, old(ctx_t)) ==> err != nil
+//@   ensures surfaced: !old(ctx_seen) && ctx_seen ==> err != nil
+//@   ensures polled: err == nil && ctx_t > old(ctx_t) ==> !ctx_cancelled(ctx, old(ctx_t))
+//@   ensures time: ctx_t >= old(ctx_t)
+//@   loop *
+//@     invariant ctx_t >= old(ctx_t) && (old(ctx_seen) || !ctx_seen)
+//@     invariant ctx_t > old(ctx_t) ==> !ctx_cancelled(ctx, old(ctx_t))
+
+//@ func (state *BeaconStateView) ProcessBlock(ctx, spec, epc, benv) err
+//@   property C18
+//@   panics off
+//@   requires ctx != nil
+//@   opt weakcalls
+//@   opt inline=closures
+//@   assigns anything, ghost(ctx_t), ghost(ctx_seen)
+//@   ensures cancelled: ctx_cancelled(ctx, old(ctx_t)) ==> err != nil
+//@   ensures surfaced: !old(ctx_seen) && ctx_seen ==> err != nil
+//@   ensures polled: err == nil && ctx_t > old(ctx_t) ==> !ctx_cancelled(ctx, old(ctx_t))
+//@   ensures time: ctx_t >= old(ctx_t)
+//@   loop *
+//@     invariant ctx_t >= old(ctx_t) && (old(ctx_seen) || !ctx_seen)
+//@     invariant ctx_t > old(ctx_t) ==> !ctx_cancelled(ctx, old(ctx_t))
+
+// END C18 generated
